@@ -12,6 +12,8 @@ import (
 	"net"
 	"os"
 	"strings"
+	"sync"
+	"sync/atomic"
 	"time"
 
 	"github.com/pkg/sftp"
@@ -58,12 +60,15 @@ var c20Ops = []opSpec{{"stat", fxpStat}, {"open", fxpOpen}, {"readlink", fxpRead
 	// ReadFromWithConcurrency, concurrent ReadAt, WriteTo
 	// WriteTo sizes its work from the STAT reply: that reply mutated, and with sizes at the edges of 64 and 63 bits
 	{"writetostat", fxpStat},
+	// three Stat calls at once; the peer takes the first request, leaves the others stuck in the client's Write, answers the
+	// first with the scripted reply and reads no further: every call returns (a bad reply ends the session: the others fail)
+	{"stat-queued", fxpStat},
 	{"writeconc-every", fxpWrite}, {"readfromconc-every", fxpWrite}, {"readconc-every", fxpRead}, {"writeto-every", fxpRead}}
 
 // c20Compound: operations that are not compared with the model (only crash / hang / follow-up / Close / allocation are judged)
 func c20Compound(op string) bool {
 	switch op {
-	case "writeconc-every", "readfromconc-every", "readconc-every", "writeto-every", "writetostat":
+	case "writeconc-every", "readfromconc-every", "readconc-every", "writeto-every", "writetostat", "stat-queued":
 		return true
 	case "readconc", "writeto", "remove", "removefirst", "mkdirall", "mkdirallmk", "removeall", "realpath", "mkdir", "symlink", "chmod",
 		"truncatefile", "posixrename", "lstat", "fstat", "create", "glob":
@@ -93,6 +98,7 @@ func runC20Case(op string, reply []byte) string {
 			return
 		}
 		c2.Write(frame((&rb{}).u8(fxpVersion).u32(3).b))
+		firstHeld := op == "stat-queued" // the first request is taken, then nothing is read for 40 ms (the other callers sit in their Write)
 		outq := make(chan []byte, 4096)
 		defer close(outq)
 		go func() {
@@ -105,6 +111,23 @@ func runC20Case(op string, reply []byte) string {
 			}
 		}()
 		done := false
+		if firstHeld {
+			fr, err := readFrame(c2)
+			if err != nil {
+				return
+			}
+			time.Sleep(40 * time.Millisecond)
+			r := append([]byte(nil), reply...)
+			if len(r) >= 5 {
+				binary.BigEndian.PutUint32(r[1:], fr.ID)
+			}
+			if len(r) == 0 {
+				return
+			}
+			outq <- frame(r) // written by the writer goroutine
+			time.Sleep(40 * time.Millisecond) // the queued callers stay stuck a little longer; then the peer reads continuously, as every peer here does
+			done = true
+		}
 		multi := strings.HasSuffix(op, "-every")
 		nheld := 0
 		held := make(chan uint32, 4096)
@@ -295,6 +318,22 @@ func runC20Case(op string, reply []byte) string {
 			b := make([]byte, 8)
 			n, err := f.ReadAt(b, 0)
 			res = fmt.Sprintf("n=%x;data=%s;err=%s", n, hexs(b[:clampLen(n, len(b))]), cliErrKind(err))
+		case "stat-queued":
+			var wg sync.WaitGroup
+			var okN, errN int32
+			for k := 0; k < 3; k++ {
+				wg.Add(1)
+				go func(k int) {
+					defer wg.Done()
+					if _, err := cl.Stat(fmt.Sprintf("/x%d", k)); err != nil {
+						atomic.AddInt32(&errN, 1)
+					} else {
+						atomic.AddInt32(&okN, 1)
+					}
+				}(k)
+			}
+			wg.Wait() // a call that never returns is the 5 s "hang" verdict of the caller of this goroutine
+			res = fmt.Sprintf("ok=%d;err=%d", okN, errN)
 		case "writeconc-every", "readfromconc-every":
 			f, err := cl.OpenFile("/x", os.O_RDWR)
 			if err != nil {
@@ -441,7 +480,7 @@ func runC20(c *Ctx) {
 		}(),
 	}
 	own := map[string]string{"stat": "attrs", "open": "handle", "readlink": "name1", "readdir": "names", "rename": "statusok", "read8": "data",
-		"statvfs": "statvfs", "readconc": "data", "writeto": "data", "writeconc-every": "statusok", "readfromconc-every": "statusok", "readconc-every": "data", "writeto-every": "data", "writetostat": "attrs",
+		"statvfs": "statvfs", "readconc": "data", "writeto": "data", "writeconc-every": "statusok", "readfromconc-every": "statusok", "readconc-every": "data", "writeto-every": "data", "writetostat": "attrs", "stat-queued": "attrs",
 		"remove": "status", "removefirst": "status", "mkdirall": "attrs", "mkdirallmk": "statusok", "removeall": "attrs", "realpath": "name1", "mkdir": "statusok",
 		"symlink": "statusok", "chmod": "statusok", "truncatefile": "statusok", "posixrename": "statusok", "lstat": "attrs", "fstat": "attrs", "create": "handle", "glob": "handle"}
 	child, err := startChild("c20", 6000000)
